@@ -215,6 +215,8 @@ for _k, _t in enumerate(NEAR_TYPES):
         'assocs': [],
         'uniques': {},
     }
+# (the grid schema under a second name: populations whose key values have equal hash values)
+SCHEMAS['grid_twins'] = SCHEMAS['grid']
 SCHEMAS['subsuper']['supertypes'] = [['SUP', 'R6']]
 SCHEMAS['assoc_reflexive']['attrs'] = {'N': [at('Id', ID)], 'E': [at('One_Id', ID), at('Other_Id', ID)]}
 SCHEMAS['assoc_reflexive']['assocs'] = [
